@@ -121,6 +121,18 @@ def ev(e, env, enums=None):
         raise Unknown("bin " + op)
     if k == "Cond":
         return ev(e["a"], env, enums) if ev(e["c"], env, enums) else ev(e["b"], env, enums)
+    if k == "OpCall" and e.get("op") in ("<", "<=", ">", ">=", "==", "!=") and len(e.get("args", [])) == 2:
+        # std::tie(a, b) < std::tie(c, d): tuples compare lexicographically ([tuple.rel])
+        def tup(x):
+            x = ir.unwrap_all_casts(unwrap(x))
+            if isinstance(x, dict) and x.get("k") == "Call" and (ir.callee_qn(x) or "").split("<")[0] in ("std::tie", "std::make_tuple", "std::forward_as_tuple"):
+                return [ev(unwrap(a), env, enums) for a in x.get("args", [])]
+            return None
+        a, b = tup(e["args"][0]), tup(e["args"][1])
+        if a is not None and b is not None and len(a) == len(b):
+            op = e["op"]
+            return 1 if {"<": a < b, "<=": a <= b, ">": a > b, ">=": a >= b, "==": a == b, "!=": a != b}[op] else 0
+        raise Unknown("operator %s on %s" % (e.get("op"), (e.get("callee") or {}).get("qn")))
     if k in ("DefaultArg",):
         return ev(e["e"], env, enums)
     if "cv" in e:
